@@ -32,10 +32,12 @@ git apply -R "$SD/patch.diff"
 go test -vet=off -count=1 -run 'Seed|seed|ZZ|Zz' $DEMOPKGS >/tmp/seedchk/$ID-without.log 2>&1; WITHOUT=$?
 echo "SEED $ID: suite-with-change=$SUITE_OK demo-with-change-exit=$WITH (want != 0) demo-without-change-exit=$WITHOUT (want 0)"
 cd /verif
-# ---- run the check against the change applied to /repo ----
-if [ -n "$(git -C /repo status --porcelain)" ]; then echo "SEED $ID: /repo is not clean, refusing"; exit 7; fi
-git -C /repo apply "$SD/patch.diff"
-OUT=$(VERIF_NO_EVIDENCE=1 ./check $ID $TIER 2>&1); RC=$?
-git -C /repo checkout -- .
+# ---- run the check against the change applied to /repo (SEED_REPO: a clean scratch worktree of /repo used instead
+#      while /repo itself is busy with tools/seed_regress.sh; the final word is always seed_regress.sh on /repo) ----
+R=${SEED_REPO:-/repo}
+if [ -n "$(git -C $R status --porcelain)" ]; then echo "SEED $ID: $R is not clean, refusing"; exit 7; fi
+git -C $R apply "$SD/patch.diff"
+OUT=$(VERIF_REPO=$R VERIF_NO_EVIDENCE=1 ./check $ID $TIER 2>&1); RC=$?
+git -C $R checkout -- .
 if [ $RC -eq 1 ]; then echo "SEED $ID: CAUGHT by ./check $ID $TIER: $(echo "$OUT" | grep -A2 '^----' | grep -v '^--' | head -2 | cut -c1-400 | tr '\n' ' ')";
 elif [ $RC -eq 0 ]; then echo "SEED $ID: MISSED by ./check $ID $TIER"; else echo "SEED $ID: INCONCLUSIVE rc=$RC $(echo "$OUT" | tail -3 | cut -c1-300)"; fi
